@@ -164,6 +164,10 @@ func runC15(p *Prog, r *Result) {
 	if n := checkPooledBufferReset(p, r, "syntax/typedjson", "R15j"); n == 0 {
 		r.Notef("R15j: typedjson uses no pooled buffers on this tree; the rule is armed by a control")
 	}
+	r.Rule("R15k", "package typedjson produces no text with Go's quoting (strconv.Quote and relatives, %q), which is not JSON for control characters; zero calls on the pinned tree, armed by a control", 0)
+	if n := checkNoGoQuoting(p, r, "R15k"); n == 0 {
+		r.Notef("R15k: no call of strconv.Quote*/AppendQuote* or of a %%q formatter outside error messages in package typedjson")
+	}
 	r.Rule("R15g", "a counter that a typedjson function increments and decrements is decremented on every path to a return", 0)
 	checkBalancedCounters(p, r, "syntax/typedjson", "R15g")
 	r.Rule("R15d", "reflect operations on untrusted-shape values in decodeValue/decodePos are dominated by the kind/assignability test that makes them safe", 23)
@@ -769,6 +773,10 @@ func unmarshalTable(info *types.Info, fd *ast.FuncDecl) (map[string]int64, strin
 }
 
 var c15Controls = []Control{
+	{Name: "strings-marshalled-with-go-quoting", Rule: "R15k", WantKey: "MarshalJSON#Go quoting 1", File: "syntax/typedjson/json.go",
+		Mutate: ctlChain(ctlReplaceAnywhere("\tcase reflect.String:\n\t\tif val.String() != \"\" {\n\t\t\treturn val, \"\"\n\t\t}\n", "\tcase reflect.String:\n\t\tif s := val.String(); s != \"\" {\n\t\t\treturn reflect.ValueOf(quotedString(s)), \"\"\n\t\t}\n"),
+			ctlAppendDecl("type quotedString string\n\nfunc (s quotedString) MarshalJSON() ([]byte, error) {\n\treturn strconv.AppendQuote(make([]byte, 0, len(s)+2), string(s)), nil\n}\n"),
+			ctlReplaceAnywhere("\t\"reflect\"\n", "\t\"reflect\"\n\t\"strconv\"\n"))},
 	{Name: "decoder-asks-a-half-built-node-for-its-position", Rule: "R15i", WantKey: "decodeValue#node.Pos() is not reachable from Decode", File: "syntax/typedjson/json.go",
 		Mutate: ctlReplaceAnywhere("func decodeValue(val reflect.Value, enc any) error {\n", "func decodeValue(val reflect.Value, enc any) error {\n\tif node, _ := val.Interface().(syntax.Node); node != nil && enc == nil {\n\t\t_ = node.Pos()\n\t}\n")},
 	{Name: "pooled-encode-buffer-not-emptied", Rule: "R15j", WantKey: "Encode#buf from a pool is emptied before use", File: "syntax/typedjson/json.go",
